@@ -166,7 +166,7 @@ def run_child(binp, plan, timeout=120, kind="run"):
     except subprocess.TimeoutExpired as e:
         rc, err = -9, (e.stderr or "") if isinstance(e.stderr, str) else ""
     res = None
-    rp = os.path.join(plan["out"], "result.json" if kind == "run" else "indexer.json")
+    rp = os.path.join(plan["out"], {"run": "result.json", "indexer": "indexer.json", "buslock": "buslock.json"}[kind])
     if os.path.exists(rp):
         with open(rp) as f:
             res = json.load(f)
@@ -292,7 +292,7 @@ def classify(binp, plan, known):
         cls, detail = "stuck", "; ".join(res["stuck"]) + " [trace: %s %s]" % (cls, detail)
     if c["panic"] and cls != "crash":
         cls, detail = "reject", "child died of '%s' but the trace does not explain it (%s %s)" % (c["panic"], cls, detail)
-    if res.get("recErrors"):
+    if res.get("recErrors") and cls != "stuck":
         raise Infra("recorder could not attribute a hook: %s" % res["recErrors"][:3])
     return dict(cls=cls, detail=detail, dev_used=r["dev_used"], panic=c["panic"], diverged=res.get("diverged") or [],
                 states=r["states"], lines=r["total"], races=c["races"], stderr=c["stderr"][-1500:])
@@ -477,6 +477,73 @@ def sub_timers(ctx):
     log("timer expiry: sweep vs. polling owners steered 3x on the real code: %s (expired filters are gone when the pollers get the lock)" % classes)
 
 
+# ------------------------------------------------------------------------------------------------ lock order of the bus
+
+HOLDER_HOOK = {"pb_chk": "bus closed.locked", "pb_sreq": "bus closed.locked", "pb_sacq": "bus closed.locked", "pb_close": "bus closeAll",
+               "pb_del": "bus delTopic"}
+
+
+def sub_buslocks(ctx):
+    """spec/BusLocks.tla: the two bus mutexes explicit. The pinned lock order must be deadlock-free for all interleavings;
+    for the witness deviation InvertedSubscribe TLC must produce the deadlock; the place where the lock holder sits in that
+    counterexample is where the real publishTopic goroutine is held (hook H3) while other goroutines call into the real bus."""
+    v, w, binp = ctx["v"], ctx["w"], ctx["bin"]
+    d = w.sub("buslocks")
+    vlib.stage_spec(d)
+    cfgs = ["BusLocks_mc.cfg"] + (["BusLocks_mc_thorough.cfg"] if ctx["tier"] == "thorough" else [])
+    for c in cfgs:
+        t0 = time.time()
+        r = vlib.tlc(d, "BusLocks", c, workers=16, timeout=3600)
+        if r["violated"]:
+            raise Infra("the pinned lock order of the event bus deadlocks in the model (%s) -- specification bug or a real inversion to triage:\n%s"
+                        % (c, r["out"][-3000:]))
+        v.add_mc(r)
+        ctx["cov"].setdefault("design_runs", []).append("%s: %d distinct / %d generated, %.0fs" % (c, r["distinct"], r["generated"], time.time() - t0))
+        log("design run BusLocks/%s: %d distinct states, %d transitions, lock order deadlock-free (%.0fs)" % (c, r["distinct"], r["generated"], time.time() - t0))
+    r = vlib.tlc(d, "BusLocks", "BusLocks_mc_inverted.cfg", workers=1, timeout=900)
+    if not r["violated"] or "NoBusDeadlock" not in r["out"]:
+        raise Infra("witness deviation InvertedSubscribe enabled but TLC finds no deadlock (lock model vacuous):\n" + r["out"][-2000:])
+    v.add_mc(r)
+    out = r["out"]
+    sched = re.findall(r"^State \d+: <(\w+)(?:\((\d+)\))? line", out, re.M)
+    last = out[out.rfind("State %d:" % len(sched)) if sched else 0:]
+    m = re.search(r"/\\ tW = (\d+)", last)
+    holder = int(m.group(1)) if m else 0
+    pcs = dict((int(a), b) for a, b in re.findall(r'(\d+) :> "(\w+)"', last))
+    hold_at = HOLDER_HOOK.get(pcs.get(holder, ""), None)
+    if not hold_at:
+        raise Infra("cannot read the lock holder from the BusLocks counterexample (tW=%s, pc=%s)" % (holder, pcs.get(holder)))
+    log("witness InvertedSubscribe: TLC deadlock after %d distinct states, %d steps; the holder of topicsMux (process %d) sits at %s -> hook '%s'"
+        % (r["distinct"], len(sched), holder, pcs.get(holder), hold_at))
+
+    def once(k):
+        plan = dict(holdAt=hold_at, holdMs=20, clients=6, out=os.path.join(d, "hold%d" % k))
+        return run_child(binp, plan, kind="buslock", timeout=120)["result"]
+
+    outs = pmap(once, range(3), workers=3)
+    ctx["replayed"] += 3
+    bad = [bool(o["blocked"]) or not o["delivered"] for o in outs]
+    ctx["samples"].append(dict(scenario="bus lock order: holder parked at '%s' while 6 goroutines call Subscribe/unsubscribe/AddTopic/Topics/RemoveTopic" % hold_at,
+                               schedule=" ".join(a + ("(%s)" % b if b else "") for a, b in sched), real_outcomes=["blocked" if b else "all returned" for b in bad]))
+    if not all(o["holderReached"] for o in outs):
+        raise Infra("bus lock scenario: the publishTopic goroutine never reached '%s'" % hold_at)
+    if all(bad):
+        o = outs[0]
+        rp = vlib.save_replay(ctx["pid"], "bus-lock-order", [([json.dumps(dict(kind="buslock", expect="blocked",
+                              plan=dict(holdAt=hold_at, holdMs=20, clients=6, out="replayed")))], "case.json"), ([json.dumps(o)], "buslock.json")],
+                              "bus stuck: calls that never returned: %s; publish on another topic delivered afterwards: %s" % (o["blocked"], o["delivered"]))
+        v.violation("Deadlock/bus-lock-order:" + hold_at.replace(" ", "."), rp,
+                    "with the publishTopic goroutine held 20 ms at '%s' (inside topicsMux) calls into the real bus never return: %s; a publish on "
+                    "another topic afterwards delivered=%s [3/3 runs] -- lock-order inversion between topicsMux and subscribersMux"
+                    % (hold_at, "; ".join((o["blocked"] or [])[:3]), o["delivered"]))
+        log("bus lock order: DEADLOCK on the real bus 3/3: %s" % "; ".join((o["blocked"] or [])[:2]))
+    elif any(bad):
+        raise Infra("bus lock scenario blocked in %d of 3 runs only: %s" % (sum(bad), outs))
+    else:
+        ctx["traces_ok"] += 3
+        log("bus lock order: holder parked at '%s' 3x on the real bus: all %d calls returned, publish on another topic delivered" % (hold_at, outs[0]["calls"]))
+
+
 # ------------------------------------------------------------------------------------------------ simulated schedules
 
 def nontrivial_key(d):
@@ -589,7 +656,7 @@ def sub_stress(ctx):
     known = (ctx["present"] & set(ALL[:4])) | {"D25"}
     jobs = []
     for i in range(sz["stress"]):
-        jobs.append((binp, "stress-%d" % i, dict(mode="stress", api=(i % 2 == 1), deadlineMs=[0, 12, 6][(i // 2) % 3] if i % 2 == 1 else 0, clients=2 + i % 3, rounds=2 + (i // 3) % 2, topics=1 + (i // 2) % 2,
+        jobs.append((binp, "stress-%d" % i, dict(mode="stress", api=(i % 2 == 1), stallPermille=[0, 60, 120][i % 3], deadlineMs=[0, 12, 6][(i // 2) % 3] if i % 2 == 1 else 0, clients=2 + i % 3, rounds=2 + (i // 3) % 2, topics=1 + (i // 2) % 2,
                                                 events=sz["stress_events"], polls=2, seed=seed * 100003 + i, steps=[], out=os.path.join(d, "s%d" % i))))
     if ctx.get("bin_race"):
         for i in range(sz["race"]):
@@ -643,13 +710,24 @@ def sub_stress(ctx):
             raise Infra("trace of %s rejected at %s (%s) but not in 2 re-runs of the same seed: flaky observation, fix the trace specification"
                         % (tag, detail, line[:200]))
     for tag, detail, plan in ctx["stalls"]:
-        again = sum(classify(binp, dict(plan, out=plan["out"] + "-again%d" % k), known)["cls"] == "stuck" for k in range(2))
-        if again:
+        # a stalled run is a verdict only when the same seed stalls 3/3 (the stall plan of a seed holds the same hooks again)
+        where = re.sub(r"\(filter [^)]*\)", "", detail.split(";")[0].split("[trace")[0])
+        sig = "Deadlock/" + re.sub(r"[^A-Za-z]+", "-", re.sub(r"client \d+|round \d+", "", where)).strip("-")[:60]
+        if sig in ctx["reported"]:  # the same stall in another run: already reported
+            continue
+        again, tries = 0, 0
+        while again < 2 and tries < 4:
+            tries += 1
+            again += classify(binp, dict(plan, out=plan["out"] + "-again%d" % tries), known)["cls"] == "stuck"
+        if again >= 2:
             rp = vlib.save_replay(ctx["pid"], tag, [([json.dumps(dict(kind="run", expect="stuck", plan=dict(plan, out="replayed"), known=sorted(known)))], "case.json")],
                                   "client goroutines blocked at quiescence: " + detail)
-            v.violation("Deadlock/" + re.sub(r"[^A-Za-z]+", "-", detail)[:60], rp, "%s: %s (again in %d/2 re-runs)" % (tag, detail, again))
+            if sig not in ctx["reported"]:
+                ctx["reported"].add(sig)
+                v.violation(sig, rp, "%s (stall plan %d permille): %s (stalled again in %d of %d re-runs of the seed)"
+                            % (tag, plan.get("stallPermille", 0), detail[:300], again, tries))
         else:
-            ctx["cov"].setdefault("unreproduced_stalls", []).append("%s: %s" % (tag, detail))
+            ctx["cov"].setdefault("unreproduced_stalls", []).append("%s: %s" % (tag, detail[:200]))
     log("stress: %d free-running executions of the real objects judged by TLC, classes so far %s, deviation windows seen %s"
         % (len(jobs), ctx["classes"], ctx["dev_windows"]))
 
@@ -708,7 +786,7 @@ def sub_selftest(ctx):
         log("binding self-test: " + s)
 
 
-SUBCHECKS = [sub_design, sub_deviations, sub_indexer, sub_timers, sub_simulate, sub_stress, sub_selftest]
+SUBCHECKS = [sub_design, sub_buslocks, sub_deviations, sub_indexer, sub_timers, sub_simulate, sub_stress, sub_selftest]
 
 
 
@@ -773,7 +851,11 @@ def do_replay(pid, w, replay):
         case = json.load(f)
     binp = vlib.build("vh_conc")
     plan = dict(case["plan"], out=os.path.join(w.sub("replay"), "run"))
-    if case["kind"] == "indexer":
+    if case["kind"] == "buslock":
+        c = run_child(binp, plan, kind="buslock")
+        bad = bool(c["result"]["blocked"]) or not c["result"]["delivered"]
+        log("replay: bus lock scenario -> blocked=%s delivered=%s" % (c["result"]["blocked"], c["result"]["delivered"]))
+    elif case["kind"] == "indexer":
         c = run_child(binp, plan, kind="indexer")
         got = "stuck" if not c["result"]["returned"] else "returned"
         log("replay: indexer scenario -> %s" % got)
@@ -827,7 +909,7 @@ def check_c20(pid, tier, seed, replay):
                          "CometBFT's WSClient Subscribe/Unsubscribe calls are non-blocking no-ops (loopback endpoint that answers nothing)",
                          "filter deadline shortened to 5-40 ms through hook H4 in the timer scenarios and in two thirds of the API stress runs",
                          "NewFilter (logs) and the rpc.Notifier subscriptions share the modelled structure but are not driven",
-                         "memEventBus critical sections are atomic steps (no blocking operation inside, verified by reading)"]
+                         "memEventBus critical sections are atomic steps in FilterSystem.tla; their lock order is decided separately by BusLocks.tla"]
         return v.finish()
     finally:
         w.cleanup()
